@@ -1,4 +1,5 @@
 import HttpcoreModel.Props.C05
+import HttpcoreModel.Props.Life
 /-!
 # C06 — Every network stream that is opened is eventually closed (theorems about `Sys`)
 -/
